@@ -2336,6 +2336,8 @@ class Interp:
         if isinstance(obj, tuple) and hasattr(obj, "_fields") and attr in ("_replace", "_asdict", "_fields"):
             return getattr(obj, attr)
         if isinstance(obj, (str, bytes, list, dict, set, tuple, frozenset)):
+            if not hasattr(obj, attr):
+                raise AbsRaise(f"AttributeError: '{type(obj).__name__}' object has no attribute '{attr}'", where)
             return ("pymethod", obj, attr)
         if isinstance(obj, (int, float)) and not isinstance(obj, bool) and attr in (
                 "is_integer", "bit_length", "real", "imag", "conjugate", "as_integer_ratio", "hex", "numerator", "denominator"):
@@ -3514,6 +3516,11 @@ class Interp:
         store[key] = True
         if ci.unit.env:
             return
+        odd = {"Flag", "IntFlag", "IntEnum", "StrEnum", "ReprEnum"} & set(self.pm.base_names(ci))
+        if odd:
+            # members of these behave as integers / strings / bit sets as well: not modelled, never approximated
+            store.pop(key, None)
+            raise AnalysisError("ABSINT", f"class {ci.name} derives from enum.{sorted(odd)[0]}: outside the fragment")
         for b in ci.bases:
             bc = self.pm.resolve_base(ci, b)
             if bc is not None:
